@@ -261,7 +261,7 @@ theorem persist_step (C : Crypto) (hC : HashWF C) (hS : SignWF C) (hTw : TreeWF 
       rw [e1, e2]; exact ⟨hf, a0, es, hp⟩
     · have hne : batch ≠ [] := by intro e; apply hemp; simp [e]
       obtain ⟨c1, j01, entry, hstep, hrep1, ht, hb, hbits, hentry, hlen, hsig, hsec, hsec2, hop, hdop, hfork,
-          ⟨rh, sg, cc, hhdr, ⟨l, hrh⟩, hsg⟩, hentOK⟩ :=
+          ⟨rh, sg, cc, hhdr, ⟨l, hrh⟩, hsg⟩, hentOK, _, _⟩ :=
         append_shape C hC c d a hrep batch hne hv
       have hcc : cc = c1.header.contiguous := by rw [hhdr]
       have hshape : HdrShape c1.header := by
@@ -285,7 +285,7 @@ theorem persist_step (C : Crypto) (hC : HashWF C) (hS : SignWF C) (hTw : TreeWF 
         simp [stepC, Core.clear, hge, Disk.applyAll]
       have e2 : (a.step (.clear s e)).1 = a := by simp [Abs.step, hge]
       rw [e1, e2]; exact ⟨hf, a0, es, hp⟩
-    · obtain ⟨c1, j01, hstep, hrep1, ht, hb, hbits, hhdr, hsec, hsec2, hop, hdop, hctree, ⟨cc, hcc⟩⟩ :=
+    · obtain ⟨c1, j01, hstep, hrep1, ht, hb, hbits, hhdr, hsec, hsec2, hop, hdop, hctree, ⟨cc, hcc⟩, _, _⟩ :=
         clear_shape C c d a hrep s e (by omega) hv
       have hsn : s < a.blocks.size := hv (by omega)
       have hU : U64 s ∧ U64 (e - s) := by
@@ -317,7 +317,7 @@ theorem reopen_persist (C : Crypto) (hC : HashWF C) (hTw : TreeWF C) (c : Core) 
   have hoks : ∀ e ∈ es, EntryOK e := by
     obtain ⟨_, _, _, _, _, _, _, _, _, _, hok⟩ := hp.oplog
     exact hok
-  obtain ⟨h', t', b', hopen, hinv, hs'⟩ := Reopen.reopen_full C hC hTw d ost hf es a0 a hlog hp.hfLen hp.hfSig
+  obtain ⟨h', t', b', hopen, hinv, hs'⟩ := Reopen.reopen_full C hC hTw d ost hf es a0 a [] (fun op hop => by cases hop) hlog hp.hfLen hp.hfSig
     hp.hfShape hoks hp.fileNodes (fun i _ => hp.fileBits i) (fun i hh => Or.inl (by rw [hp.fileBits]; exact hh))
     (fun i _ hh => by rw [hp.fileBits]; exact hh)
     (fun i hi => by
